@@ -2,11 +2,12 @@
   C14 — Well-formed motif files load completely and exactly under any stream chunking.
 -/
 import LMV.Lemmas.Stream
+import LMV.Lemmas.JasparRT
 
 namespace LMV
 namespace C14
 
-open Io
+open Io Nom
 
 /-- **Chunking independence.**  For every schedule of chunk sizes, `read_until(d)` appends the
     prefix of the stream through the first `d` and leaves the rest. -/
@@ -16,6 +17,46 @@ theorem chunking_independence (d : UInt8) (sched : List Nat) (bytes : Bytes) :
 
 example : (readUntil 62 [2, 1, 5] [1, 2, 3, 62, 4, 62]).1 = [1, 2, 3, 62] ∧
     (readUntil 62 [2, 1, 5] [1, 2, 3, 62, 4, 62]).2.1 = [4, 62] := by decide
+
+/-- chunking independence of `read_line` (UniPROBE, TRANSFAC) -/
+theorem chunking_independence_lines (sched : List Nat) (bytes : Bytes) :
+    (readLine sched bytes).1 = (if validUtf8 (through 10 bytes) then some (through 10 bytes) else none) ∧
+    (readLine sched bytes).2.1 = after 10 bytes :=
+  readLine_eq sched bytes
+
+/-- **`parseNat (digits n) = n`**: nom's `u32` reads the decimal rendering of every `n < 2^32`
+    back and stops right after it, whatever non-digit follows -/
+theorem parseNat_digits (n : Nat) (hn : n < 4294967296) (tail : Bytes) (ht : StartsNot isDigit tail) :
+    u32 (Jaspar.digits n ++ tail) = .ok tail n :=
+  Jaspar.uint_digits _ n hn tail ht
+
+example : u32 (Jaspar.digits 4294967295 ++ [0x20, 0x31]) = .ok [0x20, 0x31] 4294967295 :=
+  parseNat_digits _ (by decide) _ (by simp only [StartsNot]; decide)
+
+/-- **JASPAR (raw) round trip.**  For every list of well-formed motifs (any number of them, any
+    width, counts up to `u32::MAX`, description present or absent), every schedule of chunk sizes
+    and every buffer-capacity policy, the reader returns exactly those motifs in order — identifier
+    and description as written, every count in the row of its position and the column of its
+    symbol, the `N` column zero — and then signals the end of input. -/
+theorem jaspar_round_trip (grow : Nat → Nat → Nat → Nat) (sched : List Nat) (rs : List Jaspar.Src)
+    (hwf : ∀ r ∈ rs, Jaspar.WF r) :
+    outcomes (Jaspar.next Jaspar.record grow) (rs.length + 1)
+        (Jaspar.new grow sched (Jaspar.render rs))
+      = rs.map (fun r => Outcome.record (Jaspar.expect r)) ++ [Outcome.done] :=
+  Jaspar.roundTrip grow sched rs hwf
+
+/-- a well-formed two-motif file exists (non-vacuity), and the theorem applies to it -/
+def demo : List Jaspar.Src :=
+  [{ id := [0x4D, 0x41], description := some [0x61, 0x20, 0x62], a := [1, 4294967295], c := [0, 2],
+     g := [3, 0], t := [7, 7] },
+   { id := [], description := none, a := [], c := [], g := [], t := [] }]
+
+example : ∀ r ∈ demo, Jaspar.WF r := by decide
+
+example : outcomes (Jaspar.next Jaspar.record Jaspar.growAmortized) 3
+    (Jaspar.new Jaspar.growAmortized [1, 3, 2] (Jaspar.render demo))
+      = demo.map (fun r => Outcome.record (Jaspar.expect r)) ++ [Outcome.done] :=
+  jaspar_round_trip _ _ demo (by decide)
 
 end C14
 end LMV
